@@ -28,6 +28,7 @@ EXTENDS Naturals, Sequences, FiniteSets, TLC, Json
 CONSTANTS MaxLines,     \* pool lines per block (the root line is always there)
           SampleAbove,  \* blocks are enumerated completely up to this many pool lines; a longer block
           SampleOneIn,  \* is kept only if a hash of its lines and of the seed (tlc -seed) is 0 mod SampleOneIn
+          PoolSel,      \* "main" = the 24-line pool; "twins" = a smaller pool with more same-directive lines
           ExecMode,     \* "canon" = the code; "file" = mutant: directives executed in file order
           CompileMode   \* "outerfirst" = the code; "reversed" = mutant: stack compiled the other way
 
@@ -44,7 +45,7 @@ DirIdx(d) == CHOOSE k \in 1..Len(Canon) : Canon[k] = d
 
 \* ---- the pool of lines ------------------------------------------------------
 \* id :> directive.  Same-directive lines: lg1/lg2, rw1/rw2, hd1/hd2, px1/px2.
-LineDir == [ root |-> "root",  idx  |-> "index",
+LineDir == [ root |-> "root",  idx  |-> "index", idx2 |-> "index", tf2 |-> "tryfiles", rd2 |-> "redir",
              lg1  |-> "log",   lg2  |-> "log",   tf |-> "tryfiles",
              rw1  |-> "rewrite", rw2 |-> "rewrite",
              ext  |-> "ext",   gz   |-> "gzip",
@@ -55,7 +56,10 @@ LineDir == [ root |-> "root",  idx  |-> "index",
              errdefault |-> "errors" ]
 \* errdefault is not a line of the pool: it is the bare "errors" token that
 \* httpserver/plugin.go:InspectServerBlocks adds to a block that has gzip but no errors line
-PoolIds == DOMAIN LineDir \ {"root", "errdefault"}
+MainPool == DOMAIN LineDir \ {"root", "errdefault", "idx2", "tf2", "rd2"}
+TwinPool == {"idx", "idx2", "lg1", "lg2", "tf", "tf2", "rw1", "rw2", "hd1", "hd2", "hd3", "rd", "rd2",
+             "ext", "gz", "auth", "tpl", "br"}
+PoolIds == IF PoolSel = "twins" THEN TwinPool ELSE MainPool
 Dir(l) == LineDir[l]
 
 \*  root  root L                      idx   index idx.html
@@ -69,6 +73,9 @@ Dir(l) == LineDir[l]
 \*  tpl   templates / .html           px1   proxy /secret/api LIVE       px2   proxy /api DEAD
 \*  md    markdown /                  br    browse /
 \*  tf    tryfiles {path} /pub/a.html ev    expvar /secret/vars          pp    pprof
+\*  idx2  index f.txt                 (index lines add up, in file order)
+\*  tf2   tryfiles {path} /index.html (the last tryfiles line wins)
+\*  rd2   redir 302 { if {rewrite_path} starts_with /secret/s ; / /landed2 }   (first matching rule wins)
 \*  hd3   header / { -Vary ; +X-H plus }   (-Name deletes the header now and again when the handlers
 \*                                          below write; +Name appends a value; same pattern as hd1)
 LogScope == [lg1 |-> "/", lg2 |-> "/old"]
@@ -76,18 +83,23 @@ LogTag   == [lg1 |-> "L1", lg2 |-> "L2"]
 RwTarget == [rw1 |-> "/secret/s.html", rw2 |-> "/pub/a"]
 HdrScope == [hd1 |-> "/", hd2 |-> "/secret", hd3 |-> "/"]
 HdrVal   == [hd1 |-> "one", hd2 |-> "two", hd3 |-> "plus"]
+IdxArg   == [idx |-> "idx.html", idx2 |-> "f.txt"]
+TfTarget == [tf |-> "/pub/a.html", tf2 |-> "/index.html"]
+RdScope  == [rd |-> "/secret", rd2 |-> "/secret/s"]
+RdTo     == [rd |-> "/landed", rd2 |-> "/landed2"]
 PxFrom   == [px1 |-> "/secret/api", px2 |-> "/api"]
 PxLive   == [px1 |-> TRUE, px2 |-> FALSE]
 
 \* ---- the fixture site (root L) ------------------------------------------------
 \* regular files :> body token
-FileBody == [ p \in {"/index.html", "/err.html", "/pub/a.html", "/pub/doc.md", "/pub/dir/f.txt",
+FileBody == [ p \in {"/index.html", "/err.html", "/pub/a.html", "/pub/doc.md", "/pub/dir/f.txt", "/pub/dir/idx.html",
                      "/secret/s.html", "/secret/doc.md", "/secret/idx.html"} |->
               CASE p = "/index.html"     -> "ROOT-INDEX"
                 [] p = "/err.html"       -> "CUSTOM-ERR"
                 [] p = "/pub/a.html"     -> "PUB-A"
                 [] p = "/pub/doc.md"     -> "PUB-DOC"
                 [] p = "/pub/dir/f.txt"  -> "PUB-F"
+                [] p = "/pub/dir/idx.html" -> "PUBDIR-IDX"
                 [] p = "/secret/s.html"  -> "SECRET-S"
                 [] p = "/secret/doc.md"  -> "SECRET-DOC"
                 [] p = "/secret/idx.html" -> "SECRET-IDX" ]
@@ -98,17 +110,19 @@ TplBodies == {"PUB-A", "SECRET-S"}
 MdBody == [ p \in {"/pub/doc.md", "/secret/doc.md"} |-> IF p = "/pub/doc.md" THEN "MD-PUB-DOC" ELSE "MD-SECRET-DOC" ]
 \* <<directory, index page>> :> file
 IdxPath == (<<"/", "index.html">> :> "/index.html") @@ (<<"/secret/", "idx.html">> :> "/secret/idx.html")
+           @@ (<<"/pub/dir/", "idx.html">> :> "/pub/dir/idx.html") @@ (<<"/pub/dir/", "f.txt">> :> "/pub/dir/f.txt")
 DefaultIndex == << "index.html", "index.htm", "index.txt", "default.html", "default.htm", "default.txt" >>
 
 \* request paths of the battery (and the paths rewrite/ext can produce)
 Paths == {"/", "/old", "/pub/a", "/pub/a.html", "/pub/doc.md", "/pub/dir/", "/pub/nofile",
           "/secret/s.html", "/secret/s", "/secret/doc.md", "/secret/", "/secret/api/x",
           "/secret/nofile.md", "/secret/vars", "/api/x", "/debug/pprof/cmdline"}
-ScopeMembers == [ s \in {"/old", "/secret", "/secret/api", "/secret/vars", "/api", "/debug/pprof"} |->
+ScopeMembers == [ s \in {"/old", "/secret", "/secret/s", "/secret/api", "/secret/vars", "/api", "/debug/pprof"} |->
                   CASE s = "/old"        -> {"/old"}
                     [] s = "/secret"     -> {"/secret/s.html", "/secret/s", "/secret/doc.md", "/secret/",
                                              "/secret/api/x", "/secret/nofile.md", "/secret/vars"}
                     [] s = "/secret/vars" -> {"/secret/vars"}
+                    [] s = "/secret/s"   -> {"/secret/s.html", "/secret/s"}
                     [] s = "/secret/api" -> {"/secret/api/x"}
                     [] s = "/api"        -> {"/api/x"}
                     [] s = "/debug/pprof" -> {"/debug/pprof/cmdline"} ]
@@ -160,7 +174,7 @@ IndexFile(dir, pages) ==
 
 \* content type set by http.ServeContent from the file extension ("any": not compared,
 \* depends on the machine's mime table)
-TypeOf(f) == IF f \in {"/index.html", "/err.html", "/pub/a.html", "/secret/s.html", "/secret/idx.html"}
+TypeOf(f) == IF f \in {"/index.html", "/err.html", "/pub/a.html", "/secret/s.html", "/secret/idx.html", "/pub/dir/idx.html"}
              THEN "text/html" ELSE "any"
 
 ServeFile(f, w, io) ==
@@ -217,7 +231,9 @@ Serve(site, i, r, w, io) ==
       [] m.d = "tryfiles" ->
            \* tryfiles.go / rewrite.To: the first candidate that is a file (a directory when it ends
            \* in "/"), else the last one; {path} is the path AS REQUESTED
-           Next([r EXCEPT !.p = IF m.root = "L" /\ (r.orig \in Files \/ r.orig \in Dirs) THEN r.orig ELSE "/pub/a.html"], w, io)
+           \* (the last tryfiles line overwrites the candidates of the earlier ones)
+           Next([r EXCEPT !.p = IF m.root = "L" /\ (r.orig \in Files \/ r.orig \in Dirs) THEN r.orig
+                                ELSE TfTarget[m.ls[Len(m.ls)]]], w, io)
       [] m.d = "rewrite" ->
            LET hit == FirstMatch(m.ls, LAMBDA l : r.p = "/old")
            IN  Next(IF hit = "" THEN r ELSE [r EXCEPT !.p = RwTarget[hit]], w, io)
@@ -250,9 +266,10 @@ Serve(site, i, r, w, io) ==
            IF Under(r.p, "/secret") /\ ~r.creds /\ r.m # "OPTIONS" THEN R(401, TRUE, [w EXCEPT !.auth = TRUE], io)
            ELSE Next(r, w, io)
       [] m.d = "redir" ->
-           IF Under(r.p, "/secret")
+           LET hit == FirstMatch(m.ls, LAMBDA l : Under(r.p, RdScope[l])) IN
+           IF hit # ""
            THEN \* http.Redirect: body and Content-Type only for GET/HEAD
-                R(0, FALSE, [w EXCEPT !.st = 302, !.loc = "/landed", !.body = IF r.m = "GET" THEN "REDIR" ELSE "",
+                R(0, FALSE, [w EXCEPT !.st = 302, !.loc = RdTo[hit], !.body = IF r.m = "GET" THEN "REDIR" ELSE "",
                                       !.ct = IF w.ct = "" /\ r.m = "GET" THEN "text/html" ELSE w.ct], io)
            ELSE Next(r, w, io)
       [] m.d = "status" ->
@@ -324,7 +341,8 @@ Has(seq, d) == LinesOf(seq, d) # << >>
 
 \* what the documentation promises for a block, whatever the order of its lines
 ExpectedRoot(b) == IF Has(b, "root") THEN "L" ELSE "."
-ExpectedIdx(b)  == IF Has(b, "index") THEN << "idx.html" >> ELSE DefaultIndex
+ExpectedIdx(b)  == IF Has(b, "index") THEN [k \in 1..Len(LinesOf(b, "index")) |-> IdxArg[LinesOf(b, "index")[k]]]
+                   ELSE DefaultIndex
 RECURSIVE ExpectedMw(_, _)
 ExpectedMw(b, k) ==
     IF k > Len(Canon) THEN << >>
@@ -375,7 +393,8 @@ NoTokens == [d \in {Canon[k] : k \in 1..Len(Canon)} |-> << >>]
 Cfg0 == [root |-> ".", idx |-> DefaultIndex]
 
 \* deterministic sampling of the long blocks (RandomElement is not reproducible with several workers)
-PoolSeq == << "root", "idx", "lg1", "lg2", "tf", "rw1", "rw2", "ext", "gz", "hd1", "hd2", "hd3", "err", "auth", "rd", "st",
+PoolSeq == << "root", "idx", "idx2", "lg1", "lg2", "tf", "tf2", "rw1", "rw2", "ext", "gz", "hd1", "hd2", "hd3", "err", "auth",
+             "rd", "rd2", "st",
              "mime", "int", "pp", "ev", "tpl", "px1", "px2", "md", "br" >>
 PoolIndex(l) == CHOOSE k \in 1..Len(PoolSeq) : PoolSeq[k] = l
 SeedNum == LET sd == TLCGet("config").seed
@@ -448,7 +467,8 @@ ExecDirective ==
             /\ di' = di + 1 /\ UNCHANGED <<pc, ci>>
             /\ IF tokens[d] = << >> THEN UNCHANGED <<cfg, mw>>
                ELSE CASE d = "root"  -> cfg' = [cfg EXCEPT !.root = "L"] /\ UNCHANGED mw
-                      [] d = "index" -> cfg' = [cfg EXCEPT !.idx = << "idx.html" >>] /\ UNCHANGED mw
+                      [] d = "index" -> cfg' = [cfg EXCEPT !.idx = [k \in 1..Len(tokens[d]) |-> IdxArg[tokens[d][k]]]]
+                                        /\ UNCHANGED mw
                       [] OTHER -> /\ mw' = Append(mw, [d |-> d, ls |-> tokens[d], root |-> cfg.root, idx |-> cfg.idx])
                                   /\ UNCHANGED cfg
     /\ UNCHANGED <<block, rest, file, pi, tokens, stack>>
@@ -525,7 +545,7 @@ EmitBlock == LET eff == Effect(ExpectedSite(block)) IN
                                      exp |-> [k \in 1..Len(eff) |-> Tup(eff[k])]])>>)
 EmitHead(b) ==   \* (the parameter keeps TLC from evaluating this eagerly as a constant)
     /\ PrintT(<<"CASE", ToJson([kind |-> "battery", reqs |-> Battery, canon |-> Canon])>>)
-    /\ \A pr \in Before \cup MoreBefore :
+    /\ \A pr \in (IF PoolSel = "main" THEN Before \cup MoreBefore ELSE {}) :
           LET row == PairRow(pr[1], pr[2])
           IN  /\ PrintT(<<"CASE", ToJson([kind |-> "pair", named |-> (pr \in Before), row |-> row])>>)
               /\ Assert((row.req = 0) <=> (pr \in Unobservable), <<"observability of the pair changed", pr, row.req>>)
